@@ -60,6 +60,24 @@ class RandomStrategy(Strategy):
         return self.rng.choice(cands)
 
 
+class HotspotStrategy(Strategy):
+    """like RandomStrategy, but at yield points whose label is in `hot` (e.g. a monitor's explicit
+    'in-downstream' point) the running thread is preempted with probability p_hot: the thread is parked
+    inside the window of interest while the others run."""
+
+    def __init__(self, rng: Any, p: float, hot: tuple, p_hot: float) -> None:
+        self.rng, self.p, self.hot, self.p_hot = rng, p, hot, p_hot
+
+    def choose(self, ctl: "Ctl", cands: list[str], current: str | None) -> str:
+        if current is None:
+            return self.rng.choice(cands)
+        p = self.p_hot if ctl.cur_where in self.hot else self.p
+        if self.rng.random() > p:
+            return current
+        others = [n for n in cands if n != current]
+        return self.rng.choice(others) if others else current
+
+
 class PCTStrategy(Strategy):
     """PCT: random priorities, d-1 priority change points among the first `est` decisions"""
 
@@ -151,6 +169,7 @@ class Ctl:
         self.thread_exc: list[tuple] = []
         self.clock_advances = 0
         self.quiescence_waiter: Rec | None = None
+        self.cur_where: Any = None
 
     # ---- thread records
     def reg(self, name: str) -> Rec:
@@ -217,6 +236,7 @@ class Ctl:
         if len(names) == 1:
             pick = names[0]
         else:
+            self.cur_where = where
             pick = self.strategy.choose(self, names, current)
             self.decisions.append(pick)
         if current is not None and pick != current:
